@@ -505,6 +505,8 @@ fn template_hostile(rng: &mut Rng) -> String {
     const BODIES: &[&str] = &[
         "($x a $x)", "($x b $y)", "$x", "($x)", "(t! $x $y)", "(template-expand $x $y)", "((concat t !) a $x)", "(if-equal $x $y (t! a $x))", "(if-not-equal $x $y $x)",
         "(if-in-list $x ($y a b) ($x a $x))", "(defalias $x $y)", "(defvar $x $y)", "(deflayer $x $y)", "($x $y $x $y)", "(t! b $x $x)", "(if-equal $x t! ($x a $x))",
+        // reproductions wrapped in a list: every expansion nests one level deeper
+        "(($x a $x))", "(($x a $x) ($x a $x))", "(a ($x a $x))", "((($x b $y $x)))", "((t! a $x))", "(multi ($x a $x))", "(if-equal $x t! (($x a $x)))",
     ];
     let mut s = String::from("(defsrc a)\n(deflayer base a)\n");
     let nt = 1 + rng.usize(3);
@@ -669,6 +671,12 @@ fn systematic_hostile() -> &'static Vec<Mutant> {
                         }
                     }
                 }
+            }
+        }
+        // (3c) templates that reproduce their own call, at the same level and wrapped in 1-3 lists
+        for body in ["($x a $x)", "(($x a $x))", "((($x a $x)))", "(multi ($x a $x))", "(a b ($x a $x) c)", "(($x a $x) ($x a $x))", "((t! a $x))", "(if-equal $x t! (($x a $x)))"] {
+            for site in ["(deflayer base (t! a t!))", "(deflayer base a)\n(t! a t!)", "(deflayer base a)\n(defalias q (t! a t!))", "(deflayer base (t! a template-expand))", "(deflayer base a)\n(defvar v t!)\n(defalias q (t! a $v))"] {
+                push(&mut out, &format!("self-reproducing template {body} at {}", &site[..site.len().min(30)]), format!("(defsrc a)\n(deftemplate a (x) {body})\n{site}\n"), vec![]);
             }
         }
         // (4) defvar reference graphs over three variables, with use sites
